@@ -50,7 +50,7 @@ Proof.
       try (inversion H; subst; reflexivity).
     all: destruct (st s); inversion H; subst; reflexivity.
   - destruct (rd s) eqn:Erd; try (unfold reader_step in H; rewrite Erd in H; discriminate).
-    all: try (destruct (reader_step_pre _ _ _ _ _ H) as ((_ & _ & _ & _ & _ & E) & _); [rewrite Erd; exact I|]; exact E).
+    all: try (destruct (reader_step_pre _ _ _ _ H) as ((_ & _ & _ & _ & _ & E) & _); [rewrite Erd; exact I|]; exact E).
     all: unfold reader_step, notify in H; rewrite Erd in H.
     + inversion H; subst; reflexivity.
     + destruct seen; cbn [fix_cas fixed] in H; try destruct (status_eqb (st s) _); inversion H; subst; reflexivity.
@@ -98,7 +98,7 @@ Proof.
     + inversion H; subst; cbn; (destruct Hm as [Hm|[(_ & Hm)|Hm]]; [auto|discriminate|auto]).
   - (* reader *)
     destruct (rd s) eqn:Erd; try (unfold reader_step in H; rewrite Erd in H; discriminate).
-    all: try (destruct (reader_step_pre _ _ _ _ _ H) as ((E1 & _ & _ & E4 & _) & Hp & _); [rewrite Erd; exact I|];
+    all: try (destruct (reader_step_pre _ _ _ _ H) as ((E1 & _ & _ & E4 & _) & Hp & _); [rewrite Erd; exact I|];
               assert (fx = FxNone) by
                 (unfold reader_step in H; rewrite Erd in H;
                  repeat match type of H with
@@ -323,7 +323,7 @@ Qed.
 
 
 
-Lemma sinv_fresh_ok id : sinv (mkSess Ok true true 0 0 0 0 [] [] R0 CIdle id true 0).
+Lemma sinv_fresh_ok id : sinv (mkSess Ok true true 0 0 0 0 [] [] RNone CIdle id true 0).
 Proof.
   unfold sinv, stat_inv, ic_inv, cl_ok, rd_ok, nt_ok, hk_ok, est_ok, bound_ok; cbn.
   repeat split; auto; try discriminate; try constructor.
@@ -373,12 +373,12 @@ Proof.
 Qed.
 
 Lemma pinv_accept p id : pinv p ->
-  pinv (hub_set (mkPeer (sessions p ++ [mkSess Ok true true 0 0 0 0 [] [] R0 CIdle id true 0]) (pindex p))
+  pinv (hub_set (mkPeer (sessions p ++ [mkSess Ok true true 0 0 0 0 [] [] RNone CIdle id true 0]) (pindex p))
                 (length (sessions p)) id).
 Proof.
   intros [Hs Hix Hok].
-  pose proof (hub_set_pinv (sessions p ++ [mkSess Ok true true 0 0 0 0 [] [] R0 CIdle id true 0]) (pindex p)
-                (length (sessions p)) id id (mkSess Ok true true 0 0 0 0 [] [] R0 CIdle id true 0)) as L.
+  pose proof (hub_set_pinv (sessions p ++ [mkSess Ok true true 0 0 0 0 [] [] RNone CIdle id true 0]) (pindex p)
+                (length (sessions p)) id id (mkSess Ok true true 0 0 0 0 [] [] RNone CIdle id true 0)) as L.
   cbn zeta in L. rewrite N.eqb_refl in L.
   match type of L with _ -> _ -> _ -> _ -> _ -> _ -> _ -> _ -> pinv ?q =>
     replace (hub_set _ _ _) with q; [|destruct (hub_set _ _ _); reflexivity] end.
@@ -459,7 +459,7 @@ Proof.
     all: try (inversion H; fail).
     inversion H; subst. split; [left; reflexivity|reflexivity].
   - destruct (rd s) eqn:Erd; try (unfold reader_step in H; rewrite Erd in H; discriminate).
-    all: try (destruct (reader_step_pre _ _ _ _ _ H) as (_ & Hp & _); [rewrite Erd; exact I|];
+    all: try (destruct (reader_step_pre _ _ _ _ H) as (_ & Hp & _); [rewrite Erd; exact I|];
               exfalso; unfold reader_step in H; rewrite Erd in H;
               repeat match type of H with
                      | context [match ?x with _ => _ end] => destruct x; try discriminate H
@@ -497,7 +497,7 @@ Proof.
   - inversion H; subst; auto.
   - unfold closer_step in H. rewrite Hc, Hst0 in H. inversion H; subst. cbn in Hst. discriminate.
   - destruct (rd s) eqn:Erd; try (unfold reader_step in H; rewrite Erd in H; discriminate).
-    all: try (destruct (reader_step_pre _ _ _ _ _ H) as ((_ & _ & _ & E & _) & _); [rewrite Erd; exact I|]; congruence).
+    all: try (destruct (reader_step_pre _ _ _ _ H) as ((_ & _ & _ & E & _) & _); [rewrite Erd; exact I|]; congruence).
     all: unfold reader_step, notify in H; rewrite Erd in H;
       repeat match type of H with
              | context [match ?x with _ => _ end] => destruct x; try discriminate H
